@@ -628,3 +628,26 @@ def r10(ctx: Ctx) -> None:
         ctx.report(f.where, "branch-numbering", "the fixing tables do not number the branches by walking the side lists of the module tuple (slots 1..4) with one counter "
                    "starting at 1: entry i then describes another rectangle than rectangle i of the model (a branch is pinned to another branch's offset and size)",
                    lineno=f.node.lineno)
+
+
+@rule("C09", "R12.optional-tables-by-presence", "PRESENCE-NOT-TRUTH",
+      "the optional per-rectangle tables (fixed positions, offsets of a branch from its trunk) are read by presence, not by "
+      "truth: optional_get answers None exactly when the table is absent or has no entry for the index, and hands back the "
+      "stored number otherwise -- no 'or', no truthiness test of the value; an offset of exactly 0.0 (a branch centred on its "
+      "trunk) is a value like any other (seeded change C09-9: 'opt.get(index) or None' lets centred branches slide)", floor=1)
+def r12_optional_get(ctx: Ctx) -> None:
+    from .common import LEGAL
+    f = ctx.func(LEGAL, "optional_get")
+    ctx.site(f.where, "optional table read by presence (comparisons with None / membership only)")
+    for n in walk_own(f.node):
+        if isinstance(n, ast.BoolOp):
+            ctx.report(f.where, f"value-by-truth {norm_stmt(n)[:50]}", f"optional_get combines the stored value with '{type(n.op).__name__.lower()}' "
+                       f"('{ast.unparse(n)[:60]}'): a stored 0 / 0.0 is answered as if nothing were stored", lineno=n.lineno)
+        tests = [n.test] if isinstance(n, (ast.If, ast.IfExp, ast.While)) else []
+        for t in tests:
+            for leaf in ([t] if not isinstance(t, ast.BoolOp) else t.values):
+                if isinstance(leaf, ast.UnaryOp) and isinstance(leaf.op, ast.Not):
+                    leaf = leaf.operand
+                if not isinstance(leaf, (ast.Compare, ast.Constant)) and not (isinstance(leaf, ast.Call) and isinstance(leaf.func, ast.Name) and leaf.func.id == "isinstance"):
+                    ctx.report(f.where, f"value-by-truth {norm_stmt(leaf)[:50]}", f"optional_get tests the truth of '{ast.unparse(leaf)[:60]}': a stored 0 / 0.0 "
+                               "is answered as if nothing were stored", lineno=t.lineno)
